@@ -138,11 +138,10 @@ Proof.
   destruct (registered reg KIQ n); [now apply ext_elem_exact | apply skip_children].
 Qed.
 
-Lemma failed_child_exact : forall c,
-  child_ok reg TKFailed c = true -> exact_on failed_child c.
+Lemma failed_child_exact : forall c, exact_on failed_child c.
 Proof.
-  intros [n a cs|s|] H; cbn [exact_on]; auto. intros r. cbn [child_ok] in H. unfold failed_child.
-  destruct (mem (snd n) sm_conditions); [rewrite H|]; apply skip_children.
+  intros [n a cs|s|]; cbn [exact_on]; auto. intros r. unfold failed_child.
+  destruct (_ && _); apply skip_children.
 Qed.
 
 Lemma features_child_exact : forall c, exact_on features_child c.
@@ -171,7 +170,7 @@ Proof.
     eapply Forall_forallb; [|exact Hch]. apply child_of_exact.
   - rewrite run_loop_exact; [reflexivity|]. apply Forall_all, features_child_exact.
   - rewrite run_loop_exact; [reflexivity|].
-    eapply Forall_forallb; [|exact Hch]. apply failed_child_exact.
+    apply Forall_all, failed_child_exact.
   - unfold tagged. rewrite Hown, skip_children. reflexivity.
 Qed.
 
@@ -361,8 +360,7 @@ Qed.
 Lemma failed_child_nonincr : nonincr failed_child.
 Proof.
   intros n a r r' H. unfold failed_child in H.
-  destruct (mem (snd n) sm_conditions);
-    [destruct (str_eqb (fst n) ns_stanzas); [|discriminate]|]; apply skip_len in H; lia.
+  destruct (_ && _); apply skip_len in H; lia.
 Qed.
 
 Lemma features_child_nonincr : nonincr features_child.
